@@ -9,7 +9,8 @@ from framework import Result, finish, proof_obligations
 from gen_script import Gen
 
 PROP = "C01"
-NEEDS = ["model/Values.v", "model/Eval.v", "model/Loader.v", "model/Serialize.v", "proofs/SerializeP.v", "extract/Extract.v"]
+NEEDS = ["model/Values.v", "model/Eval.v", "model/Loader.v", "model/Serialize.v", "model/Unparse.v", "model/Skeleton.v", "proofs/SerializeP.v",
+         "proofs/UnparseP.v", "extract/Extract.v"]
 
 
 def gen_text(rng, i):
@@ -64,6 +65,18 @@ def check_case(model, impl, text, stats, generations=3):
                 return "the serialised text is refused by the model (%s)" % mo["err"], d
             else:
                 stats["model_unspec"] = stats.get("model_unspec", 0) + 1
+            # structural tie of the Coq serialiser to the implementation's text: same skeleton
+            import json
+            a = json.loads(model.ask("SERSKEL", observe.enc("/"), observe.enc(text)))
+            b = json.loads(model.ask("TEXTSKEL", observe.enc(d)))
+            if a is None:
+                stats["model_serialiser_undefined"] = stats.get("model_serialiser_undefined", 0) + 1
+            elif a != b:
+                k = next((i for i, (x, y) in enumerate(zip(a, b or [])) if x != y), min(len(a), len(b or [])))
+                return "the serialised text has a different structure than the model serialiser prescribes at item %d: %r vs model %r" % (
+                    k, (b or [None] * (k + 1))[k] if b and k < len(b) else None, a[k] if k < len(a) else None), d
+            else:
+                stats["skeleton_agree"] = stats.get("skeleton_agree", 0) + 1
         cur = nxt
     if len(dumps) >= 3 and dumps[1] != dumps[2]:
         return "the serialisation is not stable: generation 2 and 3 texts differ", dumps[2]
